@@ -65,3 +65,30 @@ Proof.
   - intros c k Hin. apply (absent_none_except_for table "user_args"); [exact gen_absent_none|].
     intros E. subst k. destruct Hin as [H|[H|[]]]; discriminate H.
 Qed.
+
+(* the candidate configuration files of the current source are the documented ones, in the
+   documented order (and pairwise different) *)
+Lemma gen_rc_candidates : rc_candidates = spec_rc_candidates.
+Proof. vm_compute. reflexivity. Qed.
+
+(* options.parse(args) in a home directory [h] for the current source: the specification applied to
+   the contents of the first existing candidate *)
+Theorem gen_run_home_is_spec : forall c h date keys,
+  ~ In "user_args" keys ->
+  run_home table c rc_candidates h date keys
+  = spec_run table c (discovered_config (candidates_in spec_rc_candidates h)) date keys.
+Proof.
+  intros c h date keys Hk. unfold run_home, run_discovered. rewrite gen_rc_candidates.
+  exact (gen_run_is_spec c _ date keys Hk).
+Qed.
+
+Theorem gen_lower_rc_file_ignored : forall c higher p lower h h' date keys,
+  rc_candidates = (higher ++ p :: lower)%list ->
+  (forall q, In q higher -> home_at h q = CAbsent) ->
+  home_at h p <> CAbsent ->
+  (forall q, In q (higher ++ [p])%list -> home_at h' q = home_at h q) ->
+  run_home table c rc_candidates h date keys = run_home table c rc_candidates h' date keys.
+Proof.
+  intros c higher p lower h h' date keys E Hh Hp Hagree. rewrite E.
+  exact (run_home_ignores_lower table c higher p lower h h' date keys Hh Hp Hagree).
+Qed.
